@@ -18,7 +18,8 @@ ASSUMPTIONS = ["a spec change bumps metadata.generation (Kubernetes); the cert-m
 LEVEL_TEXT = ("Lean 4 theorems over the arbitration model: squash keeps at most one change per resource and orders deletes first; each rebuild's "
               "batch is deletes-first; rebuilding an unchanged object set emits no change and no problem (rebuild_quiescent); and the reflection "
               "lemma: the diff's equality test reflects equality of the rendered attributes except for the fields named in the known findings. "
-              "The full applied=active statement is checked directly on the real code on every generated history (search oracle).")
+              "The full applied=active statement is checked directly on the real code on every generated history (search oracle)."
+              " Source tie: the three IsEqual methods, compareObjectMetas(WithAnnotations) and GetKeyWithKind are translated from /repo on every run (tools/gofn) and proved equal to the model's Res.isEqual / metaEq / Res.key (Props/TieRes.lean, Props/TieArb.lean).")
 LEVEL_NOTE = ("Assurance = weaker of (theorems about the model, correspondence, direct shadow-apply oracle on the real code). Known findings are listed in "
               "known_findings.json by signature; any other mismatch is a violation.")
 TECHNIQUE = "Lean 4 proof (batch ordering, quiescence, reflection of attribute equality) + shadow-apply oracle and model/implementation correspondence"
